@@ -101,12 +101,10 @@ def valid_operand_dtypes(kind, arity, tier):
         dom = ["bool"]
     if kind == "select":
         for c in itertools.product(dom, repeat=2):
-            if tier == "thorough" or c[0] == c[1] or {is_c(c[0]), is_c(c[1])} == {True, False} and bits(c[0]) in (bits(c[1]), 2 * bits(c[1]), bits(c[1]) // 2):
-                yield ("bool",) + c
+            yield ("bool",) + c
         return
     for c in itertools.product(dom, repeat=arity):
-        if tier == "thorough" or len(set(c)) == 1 or (arity == 2 and is_c(c[0]) != is_c(c[1])):
-            yield c
+        yield c
 
 
 def run(repo, tier):
@@ -140,9 +138,13 @@ def run(repo, tier):
         if n is None or kind in ("item", "list", "len", "dtype_index"):
             continue  # container kinds are typed structurally, not by dtype promotion
         try:
-            sem = reduce_term(parse_template("numpy", val), OPS["numpy"], FUNCS["numpy"], LANG["numpy"])
+            term = parse_template("numpy", val)
+            sem = reduce_term(term, OPS["numpy"], FUNCS["numpy"], LANG["numpy"])
         except (Unknown, tmpl.TemplateError):
             continue  # reported by C05
+        # constructs whose result is one of the operands unchanged: the run-time dtype then depends on the values
+        value_dependent = any(isinstance(x, tuple) and ((x[0] == "op" and x[1] == "select") or (x[0] == "call" and x[1] in (("name", "max"), ("name", "min"))))
+                              for x in tmpl.walk(term))
         key0 = f"targets/numpy.py kind {kind}"
         typed_any = False
         for dts in valid_operand_dtypes(kind, n, tier):
@@ -162,6 +164,8 @@ def run(repo, tier):
                 rt = np_dtype(sem, list(dts))
             except NoDtype:
                 continue
+            if value_dependent and len({d for d in dts if d != "bool"}) > 1:
+                rt = "|".join(sorted({d for d in dts if d != "bool"})) + " (whichever operand is returned)"
             n_pairs += 1
             sdt = from_atype(st)
             ok = sdt == rt
